@@ -8,9 +8,9 @@
        decode_stream (mkcfg true false 4096) (er_bytes r) = Ok [fit with messages = expected c (er_msgs r)]
 
    where [expected] moves the timestamp of a compressed message to the front and applies C06's string normalisation. *)
-From Coq Require Import NArith List Bool.
+From Coq Require Import NArith List Bool Lia.
 Import ListNotations.
-From Fit Require Import Model.Encoder Proofs.ValueProofs Proofs.TimestampProofs.
+From Fit Require Import Model.Encoder Proofs.ValueProofs Proofs.TimestampProofs Proofs.RoundtripSeq Proofs.RoundtripComp Proofs.RoundtripChain.
 Open Scope N_scope.
 
 Definition rec (ts hr : N) : message :=
@@ -57,3 +57,202 @@ Example C01_monotone_instance :
   | _ => False
   end.
 Proof. vm_compute. reflexivity. Qed.
+
+(* sequence level (normal headers, no developer fields): for EVERY list of messages whose fields round-trip at the value level
+   ([msg_rt]: the decoder's own reading of the field's definition -- the profile's field, or an unknown field typed by the base type --
+   filled with what [unmarshal] makes of what [marshal] wrote is the field itself; 1..255 bytes, at least one base-type unit; numeric
+   scalars and arrays and clean strings of known fields, numeric scalars and arrays of unknown fields satisfy it: C01_*_qualify), under
+   every encoder option set with normal headers (byte order, number of local message types 1..16 -- so every pattern of LRU
+   hits, free slots and evictions --, header size 12/14, protocol version) and every read-buffer size, decoding what
+   encode_fit wrote yields exactly one sequence whose messages are, in order, the validated input messages (number, fields with
+   their values, no developer fields).  The decoder runs with checksum verification and component expansion switched off
+   (CRC acceptance of the same bytes: Props/C04.v C04_encoder_output_accepted; expansion only appends marked fields: Props/C05.v). *)
+Theorem C01_sequence_roundtrip : forall c f r dc,
+  e_compressed c = false -> c_checksum dc = false -> c_expand dc = false -> 765 <= c_bufsize dc ->
+  encode_fit c f = Ok r -> Forall (msg_rt (e_big c)) (er_msgs r) -> len (er_bytes r) < 4294967296 ->
+  exists ft, decode_stream dc (er_bytes r) = Ok [ft] /\ map content (fit_msgs ft) = map content (er_msgs r).
+Proof. exact encode_decode_roundtrip. Qed.
+Print Assumptions C01_sequence_roundtrip.
+
+Theorem C01_numeric_fields_qualify : forall big mn f t x,
+  create_field mn (f_num f) = mkfield (f_fb f) true VInvalid false -> f_known f = true -> f_expanded f = false ->
+  f_value f = VNum t x -> elt_ok t x = true -> numeric t -> bt_for t (f_base f) -> pt_for t (fb_ptype (f_fb f)) -> fb_array (f_fb f) = false ->
+  field_rt big mn f.
+Proof. exact field_rt_scalar. Qed.
+Print Assumptions C01_numeric_fields_qualify.
+
+(* unknown fields (not in the profile): typed by the base type of the definition *)
+Theorem C01_unknown_fields_qualify : forall big mn f t x, factory mn (f_num f) = None -> f_known f = false -> f_expanded f = false ->
+  f_value f = VNum t x -> elt_ok t x = true -> numeric t -> bt_for t (f_base f) -> pt_for t (N.land (f_base f) BaseTypeNumMask) ->
+  f_fb f = with_type (unknown_fb (f_num f)) (f_base f) (N.land (f_base f) BaseTypeNumMask) false -> field_rt big mn f.
+Proof. exact field_rt_unknown_scalar. Qed.
+Print Assumptions C01_unknown_fields_qualify.
+
+Theorem C01_unknown_arrays_qualify : forall big mn f t l, factory mn (f_num f) = None -> f_known f = false -> f_expanded f = false ->
+  f_value f = VArr t l -> forallb (elt_ok t) l = true -> numeric t -> bt_for t (f_base f) -> pt_for t (N.land (f_base f) BaseTypeNumMask) ->
+  f_fb f = with_type (unknown_fb (f_num f)) (f_base f) (N.land (f_base f) BaseTypeNumMask) true ->
+  2 <= len l -> len l * N.of_nat (width t) <= 255 -> field_rt big mn f.
+Proof. exact field_rt_unknown_array. Qed.
+Print Assumptions C01_unknown_arrays_qualify.
+
+Theorem C01_strings_qualify : forall big mn f s, create_field mn (f_num f) = mkfield (f_fb f) true VInvalid false -> f_known f = true -> f_expanded f = false ->
+  f_value f = VStr s -> clean s -> f_base f = bt_string -> fb_array (f_fb f) = false -> str_size s <= 255 -> field_rt big mn f.
+Proof. exact field_rt_string. Qed.
+Print Assumptions C01_strings_qualify.
+
+Theorem C01_numeric_arrays_qualify : forall big mn f t l,
+  create_field mn (f_num f) = mkfield (f_fb f) true VInvalid false -> f_known f = true -> f_expanded f = false ->
+  f_value f = VArr t l -> forallb (elt_ok t) l = true -> numeric t -> bt_for t (f_base f) -> pt_for t (fb_ptype (f_fb f)) -> fb_array (f_fb f) = true ->
+  l <> [] -> len l * N.of_nat (width t) <= 255 -> field_rt big mn f.
+Proof. exact field_rt_array. Qed.
+Print Assumptions C01_numeric_arrays_qualify.
+
+(* the hypotheses are satisfiable: a file whose record messages alternate between two shapes with ONE local message type
+   (every change of shape evicts the other definition), big-endian *)
+Definition rec2 (ts hr cad : N) : message :=
+  mkmsg 0 mesgnum_Record [set_value (create_field mesgnum_Record 253) (VNum TU32 ts); set_value (create_field mesgnum_Record 3) (VNum TU8 hr);
+                          set_value (create_field mesgnum_Record 4) (VNum TU8 cad)] [].
+Definition cfg_one_slot := mkecfg true false 0 proto_V2 false.
+Definition evict_file := mkefile 14 0 0 [rec t0 1; rec2 (t0 + 1) 2 80; rec (t0 + 2) 3; rec (t0 + 2) 4; rec2 (t0 + 3) 5 81].
+Lemma rec_rt ts hr : ts < 4294967296 -> hr < 256 -> msg_rt true (rec ts hr).
+Proof.
+  intros Ht Hh. unfold msg_rt, rec. cbn [m_devs m_fields m_num length]. split; [reflexivity|]. split; [lia|]. split; [vm_compute; reflexivity|].
+  constructor; [|constructor; [|constructor]].
+  - eapply field_rt_scalar with (t := TU32) (x := ts); try reflexivity; try exact I; [apply N.ltb_lt; exact Ht|split; [discriminate|reflexivity]].
+  - eapply field_rt_scalar with (t := TU8) (x := hr); try reflexivity; try exact I; [apply N.ltb_lt; exact Hh|split; [discriminate|reflexivity]|discriminate].
+Qed.
+Lemma rec2_rt ts hr cad : ts < 4294967296 -> hr < 256 -> cad < 256 -> msg_rt true (rec2 ts hr cad).
+Proof.
+  intros Ht Hh Hc. unfold msg_rt, rec2. cbn [m_devs m_fields m_num length]. split; [reflexivity|]. split; [lia|]. split; [vm_compute; reflexivity|].
+  constructor; [|constructor; [|constructor; [|constructor]]].
+  - eapply field_rt_scalar with (t := TU32) (x := ts); try reflexivity; try exact I; [apply N.ltb_lt; exact Ht|split; [discriminate|reflexivity]].
+  - eapply field_rt_scalar with (t := TU8) (x := hr); try reflexivity; try exact I; [apply N.ltb_lt; exact Hh|split; [discriminate|reflexivity]|discriminate].
+  - eapply field_rt_scalar with (t := TU8) (x := cad); try reflexivity; try exact I; [apply N.ltb_lt; exact Hc|split; [discriminate|reflexivity]|discriminate].
+Qed.
+Example C01_sequence_instance :
+  exists r, encode_fit cfg_one_slot evict_file = Ok r /\ Forall (msg_rt true) (er_msgs r) /\ len (er_bytes r) < 4294967296 /\ len (er_bytes r) = 102.
+Proof.
+  assert (E : exists r, encode_fit cfg_one_slot evict_file = Ok r /\ er_msgs r = ef_msgs evict_file /\ len (er_bytes r) = 102)
+    by (eexists; split; [vm_compute; reflexivity|split; vm_compute; reflexivity]).
+  destruct E as (r & E & Em & El). exists r. split; [exact E|]. rewrite Em, El. split; [|split; [reflexivity|reflexivity]].
+  unfold evict_file. cbn [ef_msgs].
+  repeat (apply Forall_cons; [first [apply rec_rt; vm_compute; reflexivity | apply rec2_rt; vm_compute; reflexivity]|]). apply Forall_nil.
+Qed.
+
+(* the same with the compressed-timestamp header option (1..4 local message types): a message whose timestamp lies within 32 s
+   after the last written one goes out with the timestamp in its record header; the decoder rebuilds the field from its clock
+   and puts it in front.  For every list of messages that round-trip at the value level and carry at most one timestamp field
+   ([msg_rtc]), decoding yields the same messages in order, each with its fields as written or with the timestamp field -- the
+   ORIGINAL field, value included -- moved to the front ([msg_sim]).  Joins the LRU/framing induction with the clock invariant
+   of C01_timestamps (encoder's last written timestamp = decoder's clock); rests on the translated flag (fix: 0d6e112). *)
+Theorem C01_sequence_roundtrip_compressed : forall c f r dc,
+  e_compressed c = true -> encoder_tracks_last_timestamp = true -> c_checksum dc = false -> c_expand dc = false -> 765 <= c_bufsize dc ->
+  encode_fit c f = Ok r -> Forall (msg_rtc (e_big c)) (er_msgs r) -> len (er_bytes r) < 4294967296 ->
+  exists ft, decode_stream dc (er_bytes r) = Ok [ft] /\ Forall2 msg_sim (fit_msgs ft) (er_msgs r).
+Proof. exact encode_decode_roundtrip_compressed. Qed.
+Print Assumptions C01_sequence_roundtrip_compressed.
+
+(* satisfiable, on the former witness of the timestamp defect [t, t+10, t+5, t+6] *)
+Lemma rec_rtc ts hr : ts < 4294967296 -> hr < 256 -> msg_rtc false (rec ts hr).
+Proof.
+  intros Ht Hh. split; [|split; [|split]].
+  - unfold msg_rt, rec. cbn [m_devs m_fields m_num length]. split; [reflexivity|]. split; [lia|]. split; [vm_compute; reflexivity|].
+    constructor; [|constructor; [|constructor]].
+    + eapply field_rt_scalar with (t := TU32) (x := ts); try reflexivity; try exact I; [apply N.ltb_lt; exact Ht|split; [discriminate|reflexivity]].
+    + eapply field_rt_scalar with (t := TU8) (x := hr); try reflexivity; try exact I; [apply N.ltb_lt; exact Hh|split; [discriminate|reflexivity]|discriminate].
+  - unfold ts_unique, rec. cbn. lia.
+  - unfold ts_ok, rec. cbn. exact Ht.
+  - unfold ts_known, rec. cbn [m_fields m_num]. intros f Hf. vm_compute in Hf. injection Hf as <-. split; [vm_compute; reflexivity|split; reflexivity].
+Qed.
+Example C01_compressed_instance :
+  encoder_tracks_last_timestamp = true /\
+  exists r, encode_fit cfg_compressed back_file = Ok r /\ Forall (msg_rtc false) (er_msgs r) /\ len (er_bytes r) < 4294967296.
+Proof.
+  split; [reflexivity|].
+  assert (E : exists r, encode_fit cfg_compressed back_file = Ok r /\ er_msgs r = ef_msgs back_file /\ len (er_bytes r) < 4294967296)
+    by (eexists; split; [vm_compute; reflexivity|split; vm_compute; reflexivity]).
+  destruct E as (r & E & Em & El). exists r. split; [exact E|]. rewrite Em. split; [|exact El].
+  unfold back_file. cbn [ef_msgs].
+  repeat (apply Forall_cons; [apply rec_rtc; vm_compute; reflexivity|]). apply Forall_nil.
+Qed.
+
+(* chained files: the encoder's output for a list of files is the concatenation of the single outputs, and the decoder, looping
+   over the stream as a caller does, returns one sequence per file, each related to its input as above: every sequence is left in
+   the state a fresh decoder starts in, so sequences do not interfere.  Any number of files. *)
+Theorem C01_chain_roundtrip : forall c dc fs out, e_compressed c = false -> c_checksum dc = false -> c_expand dc = false -> 765 <= c_bufsize dc ->
+  fs <> [] -> encode_fits c fs [] = Ok out ->
+  exists rs, Forall2 (fun f r => encode_fit c f = Ok r) fs rs /\ out = concat (map er_bytes rs) /\
+    (Forall (fun r => Forall (msg_rt (e_big c)) (er_msgs r) /\ len (er_bytes r) < 4294967296) rs ->
+     exists fts, decode_stream dc out = Ok fts /\ Forall2 (fun ft r => map content (fit_msgs ft) = map content (er_msgs r)) fts rs).
+Proof. exact chain_roundtrip_normal. Qed.
+Print Assumptions C01_chain_roundtrip.
+
+Theorem C01_chain_roundtrip_compressed : forall c dc fs out, e_compressed c = true -> encoder_tracks_last_timestamp = true ->
+  c_checksum dc = false -> c_expand dc = false -> 765 <= c_bufsize dc ->
+  fs <> [] -> encode_fits c fs [] = Ok out ->
+  exists rs, Forall2 (fun f r => encode_fit c f = Ok r) fs rs /\ out = concat (map er_bytes rs) /\
+    (Forall (fun r => Forall (msg_rtc (e_big c)) (er_msgs r) /\ len (er_bytes r) < 4294967296) rs ->
+     exists fts, decode_stream dc out = Ok fts /\ Forall2 (fun ft r => Forall2 msg_sim (fit_msgs ft) (er_msgs r)) fts rs).
+Proof. exact chain_roundtrip_compressed. Qed.
+Print Assumptions C01_chain_roundtrip_compressed.
+
+(* developer fields (normal headers): a developer field is typed by the FIRST field description with its index and number among the
+   field_description messages of the sequence so far (the message itself included).  For every list of messages whose fields
+   round-trip at the value level and whose developer fields round-trip under the description in force at their position
+   ([msgs_rtd], threading the description list through the messages), single or chained files, decoding yields the same messages:
+   numbers, fields, developer fields (number, developer data index, value), in order. *)
+From Fit Require Import Proofs.RoundtripDev.
+Theorem C01_chain_roundtrip_dev : forall c dc fs out, e_compressed c = false -> c_checksum dc = false -> c_expand dc = false -> 765 <= c_bufsize dc ->
+  fs <> [] -> encode_fits c fs [] = Ok out ->
+  exists rs, Forall2 (fun f r => encode_fit c f = Ok r) fs rs /\ out = concat (map er_bytes rs) /\
+    (Forall (fun r => msgs_rtd (e_big c) [] (er_msgs r) /\ len (er_bytes r) < 4294967296) rs ->
+     exists fts, decode_stream dc out = Ok fts /\ Forall2 (fun ft r => map content (fit_msgs ft) = map content (er_msgs r)) fts rs).
+Proof. exact chain_roundtrip_dev. Qed.
+Print Assumptions C01_chain_roundtrip_dev.
+
+(* satisfiable: developer_data_id, field_description (field 7 of developer 0 is a uint8), then a record carrying that developer field *)
+Definition dev_file := mkefile 14 0 0
+  [mkmsg 0 mesgnum_DeveloperDataId [set_value (create_field mesgnum_DeveloperDataId 3) (VNum TU8 0)] [];
+   mkmsg 0 mesgnum_FieldDescription [set_value (create_field mesgnum_FieldDescription 0) (VNum TU8 0); set_value (create_field mesgnum_FieldDescription 1) (VNum TU8 7);
+                                     set_value (create_field mesgnum_FieldDescription 2) (VNum TU8 2)] [];
+   mkmsg 0 mesgnum_Record [set_value (create_field mesgnum_Record 253) (VNum TU32 t0); set_value (create_field mesgnum_Record 3) (VNum TU8 61)] [mkdev 7 0 (VNum TU8 99)]].
+Ltac u8field := eapply field_rt_scalar with (t := TU8); try reflexivity; try exact I; [split; [discriminate|reflexivity]|discriminate].
+Example C01_dev_instance :
+  exists r, encode_fit (mkecfg false false 2 proto_V2 false) dev_file = Ok r /\ msgs_rtd false [] (er_msgs r) /\ len (er_bytes r) < 4294967296
+            /\ exists m, nth_error (er_msgs r) 2 = Some m /\ m_devs m = [mkdev 7 0 (VNum TU8 99)].
+Proof.
+  assert (E : exists r, encode_fit (mkecfg false false 2 proto_V2 false) dev_file = Ok r /\ er_msgs r = ef_msgs dev_file /\ len (er_bytes r) < 4294967296)
+    by (eexists; split; [vm_compute; reflexivity|split; vm_compute; reflexivity]).
+  destruct E as (r & E & Em & El). exists r. split; [exact E|]. rewrite Em. split; [|split; [exact El|eexists; split; reflexivity]].
+  unfold dev_file. cbn [ef_msgs msgs_rtd]. split; [|split; [|split; [|exact I]]].
+  - unfold msg_rtd. cbn [m_fields m_devs m_num length]. split; [lia|]. split; [lia|]. split; [vm_compute; reflexivity|]. split; [|constructor].
+    constructor; [u8field|constructor].
+  - unfold msg_rtd. cbn [m_fields m_devs m_num length]. split; [lia|]. split; [lia|]. split; [vm_compute; reflexivity|]. split; [|constructor].
+    constructor; [u8field|constructor; [u8field|constructor; [u8field|constructor]]].
+  - unfold msg_rtd. cbn [m_fields m_devs m_num length]. split; [lia|]. split; [lia|]. split; [vm_compute; reflexivity|]. split.
+    + constructor; [eapply field_rt_scalar with (t := TU32); try reflexivity; try exact I; split; [discriminate|reflexivity]|constructor; [u8field|constructor]].
+    + constructor; [|constructor]. unfold dev_rt. eexists. eexists. split; [vm_compute; reflexivity|]. split; [reflexivity|]. split; [reflexivity|].
+      split; [vm_compute; split; [reflexivity|discriminate]|]. split; [vm_compute; discriminate|vm_compute; reflexivity].
+Qed.
+
+(* the same for EVERY decoder option set with component expansion off -- checksum verification on (the default) or off, any
+   read-buffer size: with verification on, the header CRC the encoder wrote is the CRC of the header's first 12 bytes, every
+   record byte is hashed while it is decoded and the running value meets the stored file CRC, so neither check fails.
+   These two are the strongest forms: single or chained files; known and unknown fields, developer fields (normal headers);
+   compressed-timestamp headers. *)
+From Fit Require Import Proofs.RoundtripCk.
+Theorem C01_roundtrip : forall c dc fs out, e_compressed c = false -> c_expand dc = false -> 765 <= c_bufsize dc ->
+  fs <> [] -> encode_fits c fs [] = Ok out ->
+  exists rs, Forall2 (fun f r => encode_fit c f = Ok r) fs rs /\ out = concat (map er_bytes rs) /\
+    (Forall (fun r => msgs_rtd (e_big c) [] (er_msgs r) /\ len (er_bytes r) < 4294967296 /\ bytes_ok (er_bytes r)) rs ->
+     exists fts, decode_stream dc out = Ok fts /\ Forall2 (fun ft r => map content (fit_msgs ft) = map content (er_msgs r)) fts rs).
+Proof. exact roundtrip_any. Qed.
+Print Assumptions C01_roundtrip.
+
+Theorem C01_roundtrip_compressed : forall c dc fs out, e_compressed c = true -> encoder_tracks_last_timestamp = true -> c_expand dc = false -> 765 <= c_bufsize dc ->
+  fs <> [] -> encode_fits c fs [] = Ok out ->
+  exists rs, Forall2 (fun f r => encode_fit c f = Ok r) fs rs /\ out = concat (map er_bytes rs) /\
+    (Forall (fun r => Forall (msg_rtc (e_big c)) (er_msgs r) /\ len (er_bytes r) < 4294967296 /\ bytes_ok (er_bytes r)) rs ->
+     exists fts, decode_stream dc out = Ok fts /\ Forall2 (fun ft r => Forall2 msg_sim (fit_msgs ft) (er_msgs r)) fts rs).
+Proof. exact roundtrip_compressed_any. Qed.
+Print Assumptions C01_roundtrip_compressed.
